@@ -44,6 +44,12 @@ INPUT_TYPE = "(bool * list op)"
 ALL_REPAIRS = ("prune-weights", "prune-queries", "skip-zero-function")
 X0 = ("PVar", 0)
 ZX0 = ("PScalL", 0, ("PVar", 0))
+# badly scaled but exactly representable coefficients: a non-zero coefficient never vanishes, however small
+TINY = [2.0 ** -30, 2.0 ** -45, 2.0 ** -60, 1e-9, -1e-9]
+HUGE = 2.0 ** 40
+TX1 = ("PSub", ("PVar", 0), ("PScalL", 1e-9, ("PVar", 1)))          # x0 - 1e-9 * x1 (a step with a tiny step size)
+TX2 = ("PScalL", 2.0 ** -60, ("PVar", 1))                            # 2^-60 * x1
+TX3 = ("PAdd", ("PScalR", ("PVar", 1), HUGE), ("PDiv", ("PVar", 0), 2.0 ** 30))   # 2^40 * x1 + x0 / 2^30
 CX0a = ("PSub", ("PAdd", ("PVar", 0), ("PVar", 1)), ("PVar", 1))
 CX0b = ("PSub", ("PVar", 1), ("PSub", ("PVar", 1), ("PVar", 0)))
 
@@ -89,6 +95,14 @@ def exhaustive_cases(tier):
     # query points that RETURN to x0 through the Point algebra: (x0 + x1) - x1 and x1 - (x1 - x0)
     for body in sequences(alphabet([X0, CX0a]), 2) + sequences(alphabet([CX0a, CX0b], reduced=True), 2):
         cases.append((universe(True, False, [(0, 1), (1, 2)]) + [("NewPoint",)], body, "guarded"))
+    # badly scaled query points and composite weights (2^-60 ... 2^40, 1e-9): nothing non-zero may ever vanish
+    for body in sequences(alphabet([TX1, TX2], reduced=True), 2) + sequences(alphabet([X0, TX3], reduced=True), 2):
+        cases.append((universe(True, False, [(0, 1), (1, 2)]) + [("NewPoint",)], body, "guarded"))
+    for body in sequences(alphabet([X0]), 2):
+        cases.append((universe(True, False, [(0, 2.0 ** -40), (1, HUGE)]), body, "guarded"))
+        cases.append((universe(False, True, [(0, 2.0 ** -60), (1, -1)]), body, "guarded"))
+    for ops in scale_cases():
+        cases.append((ops, (), "guarded"))
     # cancelling weights are pruned by Function.__add__ (repaired F-C07a): f0 + f1 - f1 is an ordinary composite
     c_len = 2 if tier == "quick" else 3
     for r0 in (True, False):
@@ -115,6 +129,28 @@ def exhaustive_cases(tier):
             cases.append(([("NewPoint",), ("NewLeaf", r0), ("NewLeaf", r1), ("Direct", [(0, 1), (1, 0)], r0 and r1)],
                           body, "zero"))                                                   # {f0: 1, f1: 0}
     return cases
+
+
+def scale_cases():
+    """add_point the way the primitive steps call it, with a tiny step size / a tiny or huge recorded gradient / a tiny
+    coefficient in the recorded value: the recorded triple keeps every non-zero coefficient, the point is found again,
+    and only an EXACTLY empty gradient makes the sample stationary"""
+    out = []
+    pre = universe(True, False, [(0, 1), (1, 2)])          # point 0; functions 0 (diff.), 1 (non-diff.), 2 = f0 + 2 f1
+    for f in (0, 1, 2):
+        for tiny in TINY + [HUGE]:
+            x = ("PSub", ("PVar", 0), ("PScalL", tiny, ("PVar", 1)))                # x0 - gamma * g
+            out.append(pre + [("NewPoint",), ("NewExpr",), ("AddPoint", f, x, ("PVar", 1), [(0, 1)]),
+                              ("Oracle", f, x), ("Value", f, ("PVar", 0)), ("Gradient", f, x)])
+            # a tiny (not zero) recorded gradient is not a stationary point; an exactly cancelled one is
+            out.append(pre + [("NewPoint",), ("NewPoint",), ("NewExpr",),
+                              ("AddPoint", f, ("PVar", 1), ("PScalL", tiny, ("PVar", 2)), [(0, 1)]),
+                              ("Value", f, ("PVar", 1)),
+                              ("NewPoint",), ("NewExpr",),
+                              ("AddPoint", f, ("PVar", 3), ("PSub", ("PScalL", tiny, ("PVar", 2)), ("PScalL", tiny, ("PVar", 2))),
+                               [(1, 1), (0, tiny)]),
+                              ("Value", f, ("PVar", 3))])
+    return out
 
 
 # regression cases of repaired findings (fixed: 5162ea4, F-C07a): a failure here is a VIOLATION, never a known finding
@@ -231,12 +267,22 @@ class Gen(object):
                     t = ("PAdd", t[2], t[1])          # equal decomposition, other insertion order
             else:
                 t = T.gen_point(rng, rng.choice([0, 0, 1, 1, 2]), npts)
+            if rng.random() < 0.12 and npts >= 2:
+                # a badly scaled direction that the point does not contain yet (no rounding: no coefficient is added)
+                used = set(k for k, _ in FL.ref_pdict(t))
+                free = [k for k in range(npts) if k not in used]
+                if free:
+                    c = rng.choice(TINY + [HUGE])
+                    t = (rng.choice(["PAdd", "PSub"]), t, ("PScalL", c, ("PVar", rng.choice(free))))
             if self.profile == "zero" and rng.random() < 0.2:
                 t = rng.choice([("PScalL", 0, t), ("PScalR", t, 0), ("PScalL", 0.0, t)])
-            d = FL.ref_pdict(t)          # decided on the specified decomposition, never on what the code built
+            try:
+                d = FL.ref_pdict(t, exact=True)   # decided on the specified decomposition, never on what the code built
+            except FL.Inexact:
+                continue
             if self.profile == "guarded" and any(v == 0 for _, v in d):
                 continue
-            if any(abs(v) > 4096 or v.denominator > 4096 for _, v in d):
+            if any(abs(v) > 2 ** 44 or abs(v) < Fraction(1, 2 ** 64) for _, v in d if v != 0):
                 continue
             if t not in self.pool and T.size(t) <= 6:
                 self.pool.append(t)
@@ -280,20 +326,22 @@ class Gen(object):
         self.emit(("NewExpr",), check)
         new_e = self.w.n_exprs() - 1
         base = T.gen_point(rng, rng.choice([0, 1]), new_p) if new_p > 0 else None
-        gamma = rng.choice([1, -1, 2, 0.5, -0.25])
+        gamma = rng.choice([1, -1, 2, 0.5, -0.25] + TINY + [HUGE])
         x = ("PVar", new_p) if base is None or rng.random() < 0.3 else ("PSub", base, ("PScalL", gamma, ("PVar", new_p)))
         rr = rng.random()
         if rr < 0.5:
             g = ("PVar", new_p)
         elif rr < 0.65:
             g = ("PZero",)
+        elif rr < 0.72:
+            g = ("PScalL", rng.choice(TINY + [HUGE]), ("PVar", new_p))       # tiny / huge, never zero: not stationary
         elif rr < 0.8 and base is not None:
             g = ("PScalL", 0, base) if self.profile == "zero" else ("PNeg", base)
         else:
             g = T.gen_point(rng, 1, new_p + 1)
         v = [(new_e, 1)]
         if new_e > 0 and rng.random() < 0.3:
-            v.append((rng.randrange(new_e), rng.choice([2, -1, 0.5] + ([0] if self.profile == "zero" else []))))
+            v.append((rng.randrange(new_e), rng.choice([2, -1, 0.5] + TINY + ([0] if self.profile == "zero" else []))))
         return self.emit(("AddPoint", f, x, g, v), check)
 
     def run(self, length, check):
